@@ -1021,8 +1021,13 @@ def admit(ctx, rule="R-ADMIT-FIRST", rule_busy="R-BUSY-BRANCH"):
                 try:
                     rs = [x for x in call_runs(P, P.func(S, "_send_dm15"), list(sends[0].value[2]), sends[0].value[3]) if x.term not in ("raise", "exc")]
                     inner = {e.target[2] for x in rs for _, e in x.effects() if e.kind == "store" and e.target[0] == "attr" and e.target[1] == SELF}
+                    regs = [e for x in rs for _, e in x.effects() if e.kind == "call" and e.value[1] in (("attr", field("_ca"), "subscribe"), ("attr", field("_ca"), "unsubscribe"))]
                 except AnalysisError as ex:
                     inner = {"?" + str(ex)}
+                    regs = []
+                regs += [e for _, e in r.effects() if e.kind == "call" and e.value[1] in (("attr", field("_ca"), "subscribe"), ("attr", field("_ca"), "unsubscribe"))]
+                if regs:
+                    pr.append("the busy path changes the listener registrations (%s): the running transaction loses / gains a handler" % pretty(regs[0].value)[:60])
                 written = {e.target[2] for e in stores} | inner
                 extra = written - {"_busy", "_pgn"}
                 for _, e in r.effects():
